@@ -51,7 +51,8 @@ def run(prop, pcfg, units, runs, seed, run_unit, Undecided):
         allh = dict(replay_search.HARNESS); allh.update(replay_search.struct_harnesses())
         if 'c02_*' in hs: hs = [h for h in hs if h != 'c02_*'] + sorted(h for h in allh if h.startswith('c02_'))
         def one(h):
-            try: return h, replay_search.search(h, timeout=int(os.environ.get('VERIF_REPLAY_TIMEOUT_THOROUGH', '900')), prop=prop)
+            # native families: three times the cases of the quick tier under a second seed (the quick tier's run, first seed, is part of this tier too)
+            try: return h, replay_search.search(h, timeout=int(os.environ.get('VERIF_REPLAY_TIMEOUT_THOROUGH', '900')), prop=prop, scale=3, seed=20261004)
             except Exception as e: return h, {'status': 'search-error: %s' % e}
         with ThreadPoolExecutor(max_workers=4) as tp:
             res = dict(tp.map(one, hs))
